@@ -16,7 +16,8 @@ Enter(w) == /\ w \notin entered /\ (Safe => Gated = {})
             /\ (\A v \in W : v < w => v \in entered)          \* symmetry: waiters enter in order
             /\ entered' = entered \cup {w} /\ UNCHANGED <<released, cancelled>> /\ R("enter", w)
 Release(w) == w \in Gated /\ released' = released \cup {w} /\ UNCHANGED <<entered, cancelled>> /\ R("release", w)
-Cancel(w) == w \in entered /\ w \notin cancelled /\ cancelled' = cancelled \cup {w} /\ UNCHANGED <<entered, released>> /\ R("cancel", w)
+\* a waiter's context may also be cancelled before it calls Wait (only the next one to enter: symmetry)
+Cancel(w) == (w \in entered \/ \A v \in W : v < w => v \in entered) /\ w \notin cancelled /\ cancelled' = cancelled \cup {w} /\ UNCHANGED <<entered, released>> /\ R("cancel", w)
 Signal == UNCHANGED <<entered, released, cancelled>> /\ R("signal", 0)
 Broadcast == UNCHANGED <<entered, released, cancelled>> /\ R("broadcast", 0)
 Next == len < MaxLen /\ ((\E w \in W : Enter(w) \/ Release(w) \/ Cancel(w)) \/ Signal \/ Broadcast)
